@@ -109,6 +109,15 @@ def run_instance(inst):
         return same_num(p[0], q[0]) and same_num(p[1], q[1])
 
     def claims(eng, v):
+        try:
+            return claims_inner(eng, v)
+        except (E.Unsupported, E.Unwind, sqlshim.SqlShimError):
+            raise
+        except Exception as e:
+            # a listing that raises on one backend for a loaded graph: decided by the concrete comparison on the real sqlite3
+            return [(f'listings_answer_without_raising ({type(e).__name__}: {e})', z3.BoolVal(False))]
+
+    def claims_inner(eng, v):
         a, b = v['a'], v['b']
         cl = []
         if with_matcher:
@@ -179,7 +188,15 @@ def run_instance(inst):
 
 
 def concrete_compare(gname, cc, box, cpath, fam, bulk=False):
-    """Both backends on doubles with the REAL sqlite3.  Returns None or a description."""
+    """Both backends on doubles with the REAL sqlite3.  Returns None or a description.  An exception raised by either backend while
+    loading or answering (finite coordinates, integer labels: valid input) is a difference between the backends as well."""
+    try:
+        return _concrete_compare(gname, cc, box, cpath, fam, bulk)
+    except Exception as e:
+        return f"a backend raised {type(e).__name__}: {e} while the same graph was loaded into / queried on both (bulk={bulk}, coordinates {cc})"
+
+
+def _concrete_compare(gname, cc, box, cpath, fam, bulk=False):
     nodes, edges = GRAPHS[gname]
     d = sqlcommon.scratch_dir()
     try:
